@@ -1355,6 +1355,11 @@ def __should_skip_by_visibility(name: str, *, add_to_test: bool) -> bool:
             return __is_private(name) or __is_protected(name)
 
 
+def __is_function_or_method(member: object) -> bool:
+    # A class method looked up on its class is a bound method, not a function.
+    return inspect.isfunction(member) or inspect.ismethod(member)
+
+
 def __is_method_defined_in_class(class_: type | types.UnionType, method: object) -> bool:
     return class_ == get_class_that_defined_method(method)
 
@@ -1575,7 +1580,7 @@ def __analyse_class(
             test_cluster.add_accessible_object_under_test(generic, method_data)
 
     try:
-        methods_with_names = inspect.getmembers(type_info.raw_type, inspect.isfunction)
+        methods_with_names = inspect.getmembers(type_info.raw_type, __is_function_or_method)
     except Exception as ex:  # noqa: BLE001
         LOGGER.error("Could not get members for class %s: %s", type_info.full_name, str(ex))
         return
